@@ -71,6 +71,8 @@ func c16KeyAlgebra(c *report.Collector, l *report.Local) {
 		{`true`, schema.ExpressionValue{Static: cty.True}},
 		{`r.s`, schema.ExpressionValue{Address: lang.Address{lang.RootStep{Name: "r"}, lang.AttrStep{Name: "s"}}}},
 		{`r`, schema.ExpressionValue{Address: lang.Address{lang.RootStep{Name: "r"}}}},
+		{`r[1]`, schema.ExpressionValue{Address: lang.Address{lang.RootStep{Name: "r"}, lang.IndexStep{Key: cty.NumberIntVal(1)}}}},
+		{`r["1"]`, schema.ExpressionValue{Address: lang.Address{lang.RootStep{Name: "r"}, lang.IndexStep{Key: cty.StringVal("1")}}}},
 	}
 	names := []string{"x", "y", "z"}
 	keyOwner := map[schema.SchemaKey]string{}
